@@ -4,15 +4,25 @@ SPEC = {
     "engine": "E2",
     "level": "exploration",
     "technique": "runtime monitor of the real flip lottery on generated identity tables: double evaluation, "
-                 "ground-truth authorship vs. solver API, real ECIES key packages through the keys pool",
+                 "ground-truth authorship vs. solver API, real ECIES key packages through the keys pool, "
+                 "two consecutive epochs on one node (real completeEpoch / KeysPool.Clear in between, with and without restart)",
     "level_text": "Generated shard layouts (exhaustive for <= 7 candidates x all author subsets x 1..3 flips x 8 seeds; "
                   "random up to 4 shards x 400 candidates) are written into a real StateDB, the real "
                   "calculateCeremonyCandidates runs on them and is observed through Get{Short,Long}FlipsToSolve, "
-                  "PrivateEncryptionKeyCandidates, the package index lookup and GetFlipKeys. Held on the layouts run, not a proof.",
+                  "PrivateEncryptionKeyCandidates, the package index lookup and GetFlipKeys. Every real-key layout is followed by a "
+                  "SECOND epoch on the same database, AppState and KeysPool object after its caches were filled by the first epoch's "
+                  "key fetches: validation-finishing block (epoch+1, flips dropped, new identity states), the real "
+                  "ValidationCeremony.completeEpoch (-> KeysPool.Clear), blocks with the new flips, new lottery seed, new flip keys and "
+                  "packages signed for the new epoch, same identities with re-drawn roles (most authors publish again, some leave / join); "
+                  "60% on the long-running node (same ceremony and pool objects), 20% restarted right after completeEpoch, 20% restarted "
+                  "after the new lottery (ceremony restores); all oracles are applied to the second epoch (every assigned candidate "
+                  "decrypts the author's CURRENT key, outsiders cannot) and its lottery is compared with a node that never saw the first "
+                  "epoch. Histories are two epochs long, one node, no network sync of keys. Held on the layouts run, not a proof.",
     "level_note": "trusted: the harness' own record of who submitted which cid; StateDB/IAVL as the identity store; "
                   "state.IsCeremonyCandidate as the definition of 'candidate'; ECIES MAC failure as 'cannot decrypt'",
     "rule": "case = one layout (identity table + 32-byte lottery seed) evaluated twice by the real ceremony and checked by all "
-            "oracles; distinct_nontrivial = distinct (size class, author class, flips class) of a shard plus distinct "
+            "oracles; the second epoch of a two-epoch history is a case of its own (evaluated on the node that ran the first epoch "
+            "and on a fresh node); distinct_nontrivial = distinct (size class, author class, flips class) of a shard plus distinct "
             "(layout shape, seed, full observed assignment) digests",
     "jobs": [
         Job("lottery", "core/ceremony", "^TestVerifC16Lottery$", shards=(8, 16), timeout=(600, 3000)),
@@ -36,11 +46,29 @@ SPEC = {
         "second_eval_restore": (1000, 10000),
         "second_eval_rebuilt_state": (1000, 10000),
         "cross_process_comparisons": 7,
+        # two consecutive epochs on one node (every real-key layout gets a second epoch)
+        "second_epoch_layouts": (300, 2000),
+        "second_epoch_same_node": (140, 1100),
+        "second_epoch_restart_before_flips": (35, 330),
+        "second_epoch_restart_in_lottery": (35, 330),
+        "second_epoch_compared_with_fresh_node": (300, 2000),
+        "second_epoch_same_node_layouts_with_repeat_authors": (90, 750),
+        "second_epoch_authors_in_both_epochs": (900, 7000),
+        "second_epoch_authors_in_both_epochs_served_in_first": (900, 7000),
+        "second_epoch_keys_packages_published": (1400, 11000),
+        "second_epoch_keys_decrypted_ok": (50000, 400000),
+        "second_epoch_keys_decrypted_ok_author_served_in_first_epoch": (30000, 240000),
+        "second_epoch_keys_outsider_refused": (20000, 150000),
+        "second_epoch_path_zero_flips": (20, 150),
     },
     "assumptions": [
         "the identity table handed to the lottery is what the chain can produce: cids unique per identity, "
         "1..5 flips per author, shard ids within 1..ShardsNum",
         "the node's own address is not a ceremony candidate (the node itself loads no flips)",
+        "two-epoch histories: the validation-finishing block is reduced to what the lottery and the keys pool read (epoch number, "
+        "flips dropped, identity state / required flips / shard); the keys pool follows the head through the chain's NewBlockEvent; "
+        "a key package a correctly signed current-epoch author with flips offers is accepted by the pool (a refusal is reported as "
+        "inconclusive, not as a violation)",
         "cross-process determinism is compared on 40 canonical layouts via digests the children publish in the run's output directory",
     ],
 }
